@@ -8,6 +8,7 @@ class StubBarcodeParser:
         self.accept, self.index, self.index_accept, self.index_alias = accept, index, index_accept, index_alias
         self.verdicts = verdicts or {}   # alias -> bool, overrides `accept`
         self.correct = None              # optional function raw barcode -> corrected barcode (same length)
+        self.min_len = 0                 # a whitelist only holds full-length barcodes: shorter observed barcodes are never accepted
         self.calls = []
 
     def getIndexCorrectedBarcodeAndHammingDistance(self, barcode, alias, try_lazy_load_pending=True):
@@ -15,6 +16,8 @@ class StubBarcodeParser:
         if alias == self.index_alias:
             if self.index_accept:
                 return 1, barcode, 0
+            return None, None, None
+        if len(barcode) < self.min_len:
             return None, None, None
         if self.verdicts.get(alias, self.accept):
             return self.index, (barcode if self.correct is None else self.correct(barcode)), 0
